@@ -8,6 +8,7 @@ import (
 	"fmt"
 	"hash/crc32"
 	"io"
+	"math/rand"
 	"os"
 	"strconv"
 	"strings"
@@ -39,7 +40,21 @@ func (timeoutErr) Unwrap() error   { return errInjected }
 
 // recWriter records every Write call; it fails on call number failAt (1-based, 0 = never)
 // after accepting `accept` bytes of that call.
+type pathLikeErr struct {
+	Op  string
+	Err error
+}
+
+func (e *pathLikeErr) Error() string { return e.Op + ": " + e.Err.Error() }
+func (e *pathLikeErr) Unwrap() error { return e.Err }
+
+// wrapsWriterError: err wraps the very error value the writer returned (and hence its root cause)
+func wrapsWriterError(err error, w *recWriter) bool {
+	return errors.Is(err, errInjected) && w.lastErr != nil && errors.Is(err, w.lastErr)
+}
+
 type recWriter struct {
+	lastErr error
 	calls   int
 	failAt  int
 	accept  int
@@ -63,13 +78,19 @@ func (w *recWriter) Write(p []byte) (int, error) {
 		w.failed = true
 		// the kind of error varies with the case: plain, timeout-typed, joined with a deadline error -
 		// whatever its type, the caller must see an error that wraps it
-		switch (w.failAt + w.accept) % 3 {
+		var e error = errInjected
+		switch (w.failAt + w.accept) % 4 {
 		case 1:
-			return n, timeoutErr{}
+			e = timeoutErr{}
 		case 2:
-			return n, errors.Join(errInjected, os.ErrDeadlineExceeded)
+			e = errors.Join(errInjected, os.ErrDeadlineExceeded)
+		case 3:
+			// a chain, as os.File (*fs.PathError -> errno) and net.Conn (*net.OpError -> ...) return: the error the writer
+			// returned - not only its root cause - must stay reachable
+			e = &pathLikeErr{Op: "write", Err: timeoutErr{}}
 		}
-		return n, errInjected
+		w.lastErr = e
+		return n, e
 	}
 	w.writes = append(w.writes, append([]byte(nil), p...))
 	return len(p), nil
@@ -136,7 +157,7 @@ func newEnc(w io.Writer, codec string, bs int, rectype string) (encIface, error)
 func runEnc(w *recWriter, codec string, bs int, rectype string, ops []sx) (failed int, wraps bool) {
 	e, err := newEnc(w, codec, bs, rectype)
 	if err != nil {
-		return 0, errors.Is(err, errInjected)
+		return 0, wrapsWriterError(err, w)
 	}
 	for i, op := range ops {
 		var err error
@@ -146,7 +167,7 @@ func runEnc(w *recWriter, codec string, bs int, rectype string, ops []sx) (faile
 			err = e.flush()
 		}
 		if err != nil {
-			return i + 1, errors.Is(err, errInjected)
+			return i + 1, wrapsWriterError(err, w)
 		}
 	}
 	return -1, false
@@ -300,7 +321,7 @@ func encScenario(name, codec string) sx {
 					return T("violated", hs(fmt.Sprintf("write %d of %d failed and every call returned nil", k, n)))
 				case strings.HasPrefix(err.Error(), "PANIC: "):
 					return T("violated", hs(fmt.Sprintf("write %d of %d failed and %s panicked: %v", k, n, call, err)))
-				case !errors.Is(err, errInjected):
+				case !wrapsWriterError(err, fl):
 					return T("violated", hs(fmt.Sprintf("write %d of %d failed and %s returned an error that does not wrap the writer's: %v", k, n, call, err)))
 				}
 				if len(fl.writes) != k-1 {
@@ -336,6 +357,7 @@ func execFWD(a []sx) (out sx) {
 		return T("panic", hs("NewFileWriter: "+err.Error()))
 	}
 	w := &recWriter{failAt: k, accept: acc}
+	big := false
 	defer func() {
 		if r := recover(); r != nil {
 			out = T("panic", hs(fmt.Sprint(r)))
@@ -343,14 +365,24 @@ func execFWD(a []sx) (out sx) {
 	}()
 	for i, o := range a[3].args() {
 		var err error
-		if o.tag() == "h" {
+		switch o.tag() {
+		case "h":
 			err = fw.WriteHeader(w)
-		} else {
+		case "bn":
+			// (bn rows n): a block of n incompressible bytes (not carried in the case: the comparison does not depend on them)
+			data := make([]byte, o.args()[1].int())
+			rand.New(rand.NewSource(int64(len(data)))).Read(data)
+			big = true
+			err = fw.WriteBlock(w, int(o.args()[0].int()), data)
+		default:
 			err = fw.WriteBlock(w, int(o.args()[0].int()), o.args()[1].bytes())
 		}
 		if err != nil {
-			return T("res", I(int64(i)), I(int64(len(w.writes))), boolSx(errors.Is(err, errInjected)))
+			return T("res", I(int64(i)), I(int64(len(w.writes))), boolSx(wrapsWriterError(err, w)))
 		}
+	}
+	if big {
+		return T("res", A("none"), I(int64(len(w.writes))), A("true"))
 	}
 	rec := T("writes")
 	for _, x := range w.writes {
@@ -585,6 +617,15 @@ func genENC(c *ctx, faults bool) {
 				for acc := 0; acc <= 1; acc++ {
 					c.emit(T("fwd", A(codec), I(int64(k)), I(int64(acc)), ops))
 				}
+			}
+		}
+	}
+	if faults {
+		// blocks above 1 MiB and 2 MiB (a writer that splits large payloads must report a failure of any piece)
+		for i, n := range []int64{1<<20 + 1, 3 << 19, 2<<20 + 77} {
+			ops := T("ops", T("h"), T("bn", I(1), I(n)), T("b", I(1), H([]byte{2, 7})))
+			for k := 1; k <= 10; k++ {
+				c.emit(T("fwd", A(codecs[i%3]), I(int64(k)), I(int64(k%2)), ops))
 			}
 		}
 	}
